@@ -1730,15 +1730,37 @@ impl<K: Hash + Eq, V, RH: BuildHasher, REH: BuildHasher, FH: BuildHasher, FEH: B
         if recent_evict_len > 0
             && (recent_evict_len > self.p || (recent_evict_len == self.p && freq_contains_key))
         {
-            match self.recent.remove_lru_in() {
-                None => None,
-                Some(ent) => Some(self.recent_evict.put_nonnull(ent)),
-            };
-        } else {
-            match self.frequent.remove_lru_in() {
-                None => None,
-                Some(ent) => Some(self.frequent_evict.put_nonnull(ent)),
-            };
+            // fall back to the frequent list when the recent list has nothing to give
+            if !self.evict_from_recent() {
+                self.evict_from_frequent();
+            }
+        } else if !self.evict_from_frequent() {
+            // the frequent list is empty, so the room has to come from the recent list
+            self.evict_from_recent();
+        }
+    }
+
+    /// moves the least recently used entry of the recent list to its ghost list,
+    /// returns false if the recent list is empty
+    fn evict_from_recent(&mut self) -> bool {
+        match self.recent.remove_lru_in() {
+            None => false,
+            Some(ent) => {
+                self.recent_evict.put_nonnull(ent);
+                true
+            }
+        }
+    }
+
+    /// moves the least recently used entry of the frequent list to its ghost list,
+    /// returns false if the frequent list is empty
+    fn evict_from_frequent(&mut self) -> bool {
+        match self.frequent.remove_lru_in() {
+            None => false,
+            Some(ent) => {
+                self.frequent_evict.put_nonnull(ent);
+                true
+            }
         }
     }
 
